@@ -1552,3 +1552,63 @@ func (env *SpecEnv) callContracted(fc *FuncContract, name string, args []*Expr) 
 	env.assumes = append(env.assumes, Implies(And(pres...), And(posts...)))
 	return SpecVal{T: res, Ty: rt}, nil
 }
+
+// lemmaInstance: the statement of lemma `name` (a lemma block of the package's contract file,
+// proved as obligations of its own) instantiated with the given arguments:
+// requires ==> ensures. Used for `loop k: uses lemma(args)`.
+func (env *SpecEnv) lemmaInstance(call *Expr) (Term, error) {
+	vc := env.vc
+	if call.Kind != ECall || call.Args[0].Kind != EIdent {
+		return Term{}, fmt.Errorf("uses: expected lemma(args)")
+	}
+	name := call.Args[0].Name
+	var lc *FuncContract
+	for _, fc := range vc.ctx.all {
+		if fc.Kind == "lemma" && fc.PkgPath == env.pkgPath() && fc.Key == name {
+			lc = fc
+		}
+	}
+	if lc == nil {
+		return Term{}, fmt.Errorf("uses: no lemma %q in this package", name)
+	}
+	args := call.Args[1:]
+	if len(args) != len(lc.LemmaParams) {
+		return Term{}, fmt.Errorf("uses: lemma %s takes %d arguments", name, len(lc.LemmaParams))
+	}
+	sub := env.child()
+	sub.inLemma = true
+	for i, p := range lc.LemmaParams {
+		v, err := env.Eval(args[i])
+		if err != nil {
+			return Term{}, err
+		}
+		ty, err := env.resolveTypeName(p.Type)
+		if err != nil {
+			return Term{}, err
+		}
+		t := v.T
+		if v.Lit != nil {
+			t = env.litTerm(v.Lit, SInt)
+		}
+		if ty == nil && v.Ty != nil {
+			t = vc.toIndex(v.T, v.Ty) // mathint parameter: the mathematical value
+		}
+		sub.vars[p.Name] = SpecVal{T: t, Ty: ty}
+	}
+	var pre, post []Term
+	for _, rq := range lc.Requires {
+		t, err := sub.EvalBool(rq.E)
+		if err != nil {
+			return Term{}, err
+		}
+		pre = append(pre, t)
+	}
+	for _, en := range lc.Ensures {
+		t, err := sub.EvalBool(en.E)
+		if err != nil {
+			return Term{}, err
+		}
+		post = append(post, t)
+	}
+	return Implies(And(pre...), And(post...)), nil
+}
